@@ -318,7 +318,7 @@ func PanicSite(skip int) string {
 		f, more := frames.Next()
 		fn := f.Function
 		if strings.Contains(fn, "privacybydesign/gabi") &&
-			!strings.Contains(f.File, "zz_vf_") && !strings.Contains(f.File, "/verif/") &&
+			!strings.Contains(f.File, "zz_vf_") && !strings.Contains(f.File, "/verif/") && !strings.Contains(f.File, "internal/vf") &&
 			!strings.Contains(fn, "internal/vfh") {
 			return strings.TrimPrefix(fn, "github.com/privacybydesign/gabi")
 		}
